@@ -108,9 +108,11 @@ SrcBegin ==
         <<"KnownNode", Rec.e = "fetchB" => Rec.n # 0>>})
   /\ UNCHANGED <<g, dst, dstIn, nPush, cbs, pushed, cbFail, ret, phase>>
 
+\* a source read is in flight from the Fetch call until the stream it returned is closed (fetchC); a Fetch that
+\* returned an error, a predecessor listing and a resolve end when they return
 SrcEnd ==
-  /\ Rec.e \in {"fetchE", "predE", "sresolveE"}
-  /\ srcIn' = srcIn - 1
+  /\ Rec.e \in {"fetchE", "predE", "sresolveE", "fetchC"}
+  /\ srcIn' = IF Rec.e = "fetchE" /\ ~Rec.err THEN srcIn ELSE srcIn - 1
   /\ UNCHANGED <<g, dst, dstIn, nPush, nFetch, cbs, pushed, cbFail, ret, phase, viol>>
 
 DstBegin ==
@@ -193,10 +195,13 @@ RetryBegin ==
   /\ cbs' = [n \in Nodes |-> <<>>] /\ pushed' = {} /\ cbFail' = FALSE
   /\ UNCHANGED <<g, dst, ret, viol>>
 
+\* (Rec.mayfail: the destination cannot hold the graph at all - a file store and two different blobs under one name -
+\* so neither the call nor its repetition has to succeed)
 RetryEnd ==
   /\ Rec.e = "retry"
-  /\ V({<<"RetrySucceeds", ~Rec.err>>})
-  /\ UNCHANGED <<g, dst, srcIn, dstIn, nPush, nFetch, cbs, pushed, cbFail, ret, phase>>
+  /\ V({<<"RetrySucceeds", Rec.mayfail \/ ~Rec.err>>})
+  /\ ret' = Rec                       \* what `final` is judged against: the outcome of the repetition
+  /\ UNCHANGED <<g, dst, srcIn, dstIn, nPush, nFetch, cbs, pushed, cbFail, phase>>
 
 \* expectations of the extended copy (C03)
 Anc(d) == UpTo({g.root}, d, {})                \* d = -1: every ancestor
@@ -207,7 +212,7 @@ Final ==
   /\ Rec.e = "final"
   /\ LET has == Rng(Rec.has)
          good == Rng(Rec.bytesok)
-         ok == (phase = "retry") \/ (ret # NoRet /\ ~ret.err)     \* the call, or its retry, succeeded
+         ok == ret # NoRet /\ ~ret.err                             \* the call, or its repetition, succeeded
          want == IF IsExt THEN ReachNF(g.root) ELSE ReachNF(ExpectedRoot)
      IN V({<<"ClosedFinal", Closed(has)>>,
            <<"SuccessComplete", ok => want \subseteq has>>,
